@@ -326,6 +326,11 @@ pub fn special_ext_tasks() -> Vec<ExtTask> {
         mk("p :- not q. q :- not p.", false, "{p}. q :- not p.", "output: p/0. output: q/0.", ""),
         mk("p. out(X) :- in(X), p.", false, "out(X) :- in(X).", "input: in/1. output: out/1. output: p/0.", ""),
         mk("spec: p. spec: q <-> p.", true, "p. q :- p.", "output: p/0. output: q/0.", ""),
+        // a propositional predicate that clashes with a symbol but occurs in one conjecture only: the other
+        // sub-problems of the decomposition contain the symbol without the predicate
+        mk("spec: forall X (out(X) <-> in(X) and X != a and X != a0).", true, "out(X) :- in(X), X != a, X != a0. a :- in(a), not in(a0).", "input: in/1. output: out/1. output: a/0.", ""),
+        mk("spec: forall X (out(X) <-> in(X) and X != a and X != a0). spec: a <-> in(a) and not in(a0).", true, "out(X) :- in(X), X != a, X != a0. a :- in(a), not in(a0).", "input: in/1. output: out/1. output: a/0.", ""),
+        mk("spec: forall X (out(X) <-> in(X) and X != b and X != b_). spec: b <-> in(b_).", true, "out(X) :- in(X), X != b_, X != b. b :- in(b_).", "input: in/1. output: out/1. output: b/0.", ""),
         // one symbol at several arities with different visibility (private/public/input), clashing private copies on both sides
         mk("q(X) :- in(X). q(X,X) :- q(X).", false, "q(X) :- in(X). q(X,X) :- q(X).", "input: in/1. output: q/2.", ""),
         mk("q(X) :- in(X), X > 0. q(X,X) :- q(X).", false, "q(X) :- in(X). q(X,X) :- q(X), X > 0.", "input: in/1. output: q/2.", ""),
